@@ -504,6 +504,31 @@ func TestC06(t *testing.T) {
 				rt.Fatalf("C06 violated by %v: %s", c, v)
 			}
 		}
+		if res.ok() && rapid.IntRange(0, 5).Draw(rt, "reuseWeightObjects") == 0 {
+			// same weight tensor objects, new contents, fresh operator
+			ins := c.inputs()
+			first := runOp(c.kind, node, ins)
+			c2 := c
+			c2.W, c2.R = make([]float32, len(c.W)), make([]float32, len(c.R))
+			for i, v := range c.W {
+				c2.W[i] = -v + 0.125
+			}
+			for i, v := range c.R {
+				c2.R[i] = -v - 0.125
+			}
+			n2 := c2.inputs()
+			if tensor.Copy(ins[1], n2[1]) != nil || tensor.Copy(ins[2], n2[2]) != nil {
+				rt.Fatalf("harness: cannot overwrite weight tensors in place")
+			}
+			second := runOp(c.kind, node, ins)
+			ev.Class("C06", "weight-objects-reused-with-new-contents")
+			if v := c06Judge(c, first); v != "" {
+				rt.Fatalf("C06 violated by %v: %s", c, v)
+			}
+			if v := c06Judge(c2, second); v != "" {
+				rt.Fatalf("C06 violated by %v when the weight tensor objects of a previous call are passed again with new contents: %s", c2, v)
+			}
+		}
 		if rapid.IntRange(0, 4).Draw(rt, "modelLevel") == 0 {
 			n := 2
 			if c.kind == "LSTM" {
